@@ -447,6 +447,8 @@ def gen_block(rnd, kind=None):
                     out.append((rnd.choice(["MSTORE", "SSTORE"]), None))
                     extra -= 1
         return out or [("PUSH", "0")], kind
+    if kind == "hostile":
+        return gen_hostile_block(rnd), kind
     if kind == "long":
         return gen_grammar_block(rnd, Profile(minlen=15, maxlen=60, w_mem=3.0, w_sto=2.0, max_need=8)), kind
     if kind == "splitlong":
@@ -750,3 +752,62 @@ def gen_document(rnd, n_contracts=None, blocks_per_stream=None, kinds=None, vers
     names = list(contracts)
     rnd.shuffle(names)
     return {"contracts": {n: contracts[n] for n in names}, "version": version}
+
+
+
+def gen_hostile_block(rnd):
+    """inputs aimed at termination / exception containment (C10)"""
+    r = rnd.random()
+    Z = [0, MASK, 1, SIGN, MASK - 1, 256, 255, 257, 1 << 200, (1 << 255) + 1]
+    out = []
+    if r < 0.3:
+        # constant operands 0 / 2^256-1 for division, modulo, shifts and exponentiation
+        for _ in range(rnd.randrange(1, 4)):
+            op = rnd.choice(["DIV", "SDIV", "MOD", "SMOD", "SHL", "SHR", "SAR", "EXP", "ADDMOD", "MULMOD", "SIGNEXTEND",
+                             "BYTE", "MUL", "ADD", "SUB"])
+            n = 3 if op in TER else 2
+            for _ in range(n):
+                if rnd.random() < 0.8:
+                    out.append(("PUSH", hexv(rnd.choice(Z + [rand_const(rnd)]))))
+                else:
+                    out.append(("DUP%d" % rnd.randrange(1, 3), None))
+            out.append((op, None))
+            if rnd.random() < 0.3:
+                out.append((rnd.choice(UN), None))
+    elif r < 0.45:
+        # NOT NOT, long ISZERO chains
+        out.append(("DUP1", None) if rnd.random() < 0.7 else ("PUSH", hexv(rnd.choice(Z))))
+        for _ in range(rnd.randrange(2, 13)):
+            out.append((rnd.choice(["ISZERO", "ISZERO", "NOT"]), None))
+        if rnd.random() < 0.5:
+            out += [("DUP1", None), (rnd.choice(["EQ", "AND", "OR", "XOR", "SUB", "GT"]), None)]
+    elif r < 0.6:
+        # 17-24 live stack values
+        n = rnd.randrange(17, 25)
+        for i in range(n):
+            out.append(("PUSH", hexv(i + 1)) if rnd.random() < 0.6 else (rnd.choice(ENV0), None))
+        for _ in range(rnd.randrange(0, 6)):
+            out.append((rnd.choice(["DUP16", "SWAP16", "DUP1", "SWAP1", "ADD", "POP", "DUP9"]), None))
+    elif r < 0.8:
+        # long chains of dependent memory accesses (transitive dependency edges)
+        n = rnd.randrange(12, 40)
+        for i in range(n):
+            a = rnd.choice([0, 0x20, 0x40, 0x60, 0x80, rnd.randrange(0, 8) * 0x20])
+            k = rnd.random()
+            if k < 0.45:
+                out += [("PUSH", hexv(rnd.randrange(1, 300))), ("PUSH", hexv(a)), ("MSTORE", None)]
+            elif k < 0.7:
+                out += [("PUSH", hexv(a)), ("MLOAD", None), ("PUSH", hexv(a + 0x20)), ("MSTORE", None)]
+            elif k < 0.85:
+                out += [("PUSH", hexv(a)), ("SLOAD", None), ("PUSH", hexv(a)), ("SSTORE", None)]
+            else:
+                out += [("PUSH", hexv(0x40)), ("PUSH", hexv(a)), ("KECCAK256", None), ("PUSH", hexv(a)), ("MSTORE", None)]
+    else:
+        # pairs of rule patterns chained (malformed rule code paths)
+        t1 = _wrap(rnd, _P(rnd, 2), 2)
+        t2 = _wrap(rnd, _P(rnd, 2), 2)
+        t = ("op", rnd.choice(BIN), [t1, t2])
+        compile_tree(t, 0, out, 2)
+        if rnd.random() < 0.5:
+            out += [("DUP1", None), (rnd.choice(BIN), None)]
+    return out or [("PUSH", "0")]
